@@ -49,6 +49,38 @@ func afterFailureRule(p *core.Prog, r *core.Report, rule string) {
 		r.MissingAnchor(rule, "chunked upload step in BlobPut")
 		return
 	}
+	// a helper that only logs or formats is not "going on"
+	var inert func(g *ssa.Function, d int) bool
+	inert = func(g *ssa.Function, d int) bool {
+		if len(g.Blocks) == 0 || d > 2 {
+			return false
+		}
+		ok := true
+		for _, b := range g.Blocks {
+			for _, in := range b.Instrs {
+				switch x := in.(type) {
+				case *ssa.MapUpdate:
+					ok = false
+				case *ssa.Store:
+					if _, isField := x.Addr.(*ssa.FieldAddr); isField {
+						if _, local := x.Addr.(*ssa.FieldAddr).X.(*ssa.Alloc); !local {
+							ok = false
+						}
+					}
+				case ssa.CallInstruction:
+					if h := core.CalleeFn(x); h != nil && p.InModule(h) && !inert(h, d+1) {
+						ok = false
+					}
+					if x.Common().IsInvoke() {
+						if m := x.Common().Method; m != nil && m.Pkg() != nil && strings.HasPrefix(m.Pkg().Path(), modPath(".")) {
+							ok = false
+						}
+					}
+				}
+			}
+		}
+		return ok
+	}
 	bad := ""
 	edges := errEdgesOf(fn, chunked)
 	for _, e := range edges {
@@ -58,7 +90,7 @@ func afterFailureRule(p *core.Prog, r *core.Report, rule string) {
 				continue
 			}
 			g := core.CalleeFn(c)
-			if g == nil || core.FuncPkg(g) != core.FuncPkg(fn) || canon(g) == "blobUploadCancel" {
+			if g == nil || core.FuncPkg(g) != core.FuncPkg(fn) || canon(g) == "blobUploadCancel" || inert(g, 0) {
 				continue
 			}
 			bad = g.Name() + " at " + p.Pos(in.Pos())
@@ -72,7 +104,7 @@ func afterFailureRule(p *core.Prog, r *core.Report, rule string) {
 				continue
 			}
 			g := core.CalleeFn(c)
-			if g == nil || core.FuncPkg(g) != core.FuncPkg(fn) || canon(g) == "blobUploadCancel" {
+			if g == nil || core.FuncPkg(g) != core.FuncPkg(fn) || canon(g) == "blobUploadCancel" || inert(g, 0) {
 				continue
 			}
 			if _, isDefer := in.(*ssa.Defer); isDefer {
